@@ -42,7 +42,7 @@ type c05Params struct {
 func (c05) ID() string    { return "C05" }
 func (c05) Level() string { return "fault_enumeration" }
 func (c05) Rule() string {
-	return "enumerated single faults on the protected application records of one direction after a clean handshake: XOR with masks 0x01/0x80/0xFF at every byte position (header, explicit nonce/IV, body, MAC/tag, padding) of a record, drop / duplicate / swap-with-next / cut-before of every record, truncation after every byte count of a record, injected records (plaintext and garbage, content types 20-24) before every record; both cipher modes (GCM, CBC), both directions; thorough adds large records, the ECDHE suites, all positions of every record index, and seeded multi-fault plans. The sender writes N self-describing records and closes; the receiver drains and keeps reading after the first error; a thinned copy of the list runs against a receiver that has shut down its own write side first (CloseWrite). Also records sent by the independent reference endpoint with 3 or 15 blocks of padding beyond the minimum (legal), every byte position flipped, plus an unharmed control. distinct = distinct (suite, direction, sizes, fault plan); non-trivial = every planned fault hit a record"
+	return "enumerated single faults on the protected application records of one direction after a clean handshake: XOR with masks 0x01/0x80/0xFF at every byte position (header, explicit nonce/IV, body, MAC/tag, padding) of a record, drop / duplicate / swap-with-next / cut-before of every record, truncation after every byte count of a record, injected records (plaintext and garbage, content types 20-24) before every record; both cipher modes (GCM, CBC), both directions; thorough adds large records, the ECDHE suites, all positions of every record index, and seeded multi-fault plans. The sender writes N self-describing records and closes; the receiver drains and keeps reading after the first error; a thinned copy of the list runs against a receiver that has shut down its own write side first (CloseWrite). Also records sent by the independent reference endpoint with 3 or 15 blocks of padding beyond the minimum (legal), every byte position flipped, plus an unharmed control. A thinned copy of the flips runs against a receiver whose other task is inside a Write stuck in a stalled transport (the alert has to wait for that Write, it must not be left out). distinct = distinct (suite, direction, sizes, fault plan); non-trivial = every planned fault hit a record"
 }
 func (c05) Components() (real, stub []string) {
 	return []string{"tlcp.Conn client+server (instrumented): record protection, error latching, alerts"},
